@@ -356,3 +356,95 @@ Example C02_refines_segments_nonvacuous :
   | _ => False
   end.
 Proof. exact cached2_storage_refines_nonvacuous. Qed.
+
+(* ================== ONE twin for trees, dictionaries and segments (builder cache) ==================
+   Model/StorageCachedAll.v: the storage code written once over the index of live series (exact), a segments store
+   behind Model/Cache.v and an ARBITRARY trees store; instantiated with tree-b's store (real tree bytes on disk, the
+   dictionaries behind their own Model/Cache.v store).  Maintenance of all three stores anywhere in one history:
+   trees.Evict / dicts.Evict (each with the completion of its saves) / Close (trees, then dictionaries, reopen) through
+   tree-b's dmaint, segments.Evict / segments.Flush+reopen.
+   C02_refines_all_partial: under the two side conditions — every segment of the table round-trips whenever the
+   segments store is evicted or flushed (all_segs_ok; C02_segment_roundtrips), and tree-b's flag dok (stored trees
+   well formed, below the node cap, dictionaries below 2^55 bytes) — the outputs are literally those of tree-b's twin,
+   hence of the first twin, hence equivalent to st_run on the history without any maintenance (Put results, timelines,
+   metadata equal; profiles equal in every stack's self value).
+   C02_all_step_commutes is the generic statement: for ANY trees store, putting the segments behind a cache changes no
+   output of a storage operation.
+   PARTIAL — still outside: the dimensions and labels stores (the index is exact: C07_storage_index_sound +
+   C02_dimensions_transparent), write-back and in-flight saves (D10/D11), trees above the node cap, a FromBytes error of
+   a segment is read as segment.New(), totals are not claimed (scaled-totals-reloaded). *)
+From Pyro Require Import Model.StorageCachedAll Proofs.StorageCachedAllProofs.
+
+Theorem C02_refines_all_partial : forall cap rt h,
+  all_segs_ok cap rt h ->
+  dok (fst (d_run cap rt (admap h) dst_init)) = true ->
+  Forall ok_op (cstrip (dmap (admap h))) ->
+  snd (all_run cap rt h all_init) = snd (d_run cap rt (admap h) dst_init) /\
+  Forall2 out_equiv (snd (all_run cap rt h all_init)) (snd (st_run rt (cstrip (dmap (admap h))) st_init)).
+Proof. exact all_refines. Qed.
+Print Assumptions C02_refines_all_partial.
+
+Theorem C02_all_step_commutes :
+  forall (S : Type) (ts_read : tkey -> S -> S * tnode) (ts_put : tkey -> tnode -> S -> S) (ts_del : tkey -> S -> S)
+         (ts_drop : bytes -> S -> S) rt o a g,
+  RA a g ->
+  RA (fst (a_step ts_read ts_put ts_del ts_drop rt a o)) (fst (gst_step ts_read ts_put ts_del ts_drop rt g o)) /\
+  snd (a_step ts_read ts_put ts_del ts_drop rt a o) = snd (gst_step ts_read ts_put ts_del ts_drop rt g o).
+Proof. exact (@a_step_commutes). Qed.
+Print Assumptions C02_all_step_commutes.
+
+Example C02_refines_all_nonvacuous :
+  all_segs_ok 1024 None exa_hist /\
+  dok (fst (d_run 1024 None (admap exa_hist) dst_init)) = true /\
+  Forall ok_op (cstrip (dmap (admap exa_hist))) /\
+  (let a := fst (all_run 1024 None (firstn 7 exa_hist) all_init) in
+   c_lfu (a_segs a) = [] /\ b_lfu (a_store a) = [] /\ c_lfu (b_dicts (a_store a)) = []) /\
+  match snd (all_run 1024 None exa_hist all_init) with
+  | [OutPut true; OutPut true; OutGet (Some r)] => t_self_at [[97]%N; [98]%N] (go_tree r) = 3%N
+  | _ => False
+  end.
+Proof. exact all_refines_nonvacuous. Qed.
+
+(* ================== the dimensions behind a cache (builder cache) ==================
+   Model/IndexCached.v: keys' index (Model/Index.v: labels, dimensions, series) with the DIMENSION objects in a
+   Model/Cache.v store, codec Model/DimCodec.v.  Put reads the dimension of every tag pair through the store and inserts
+   the key through the pointer, a selector lookup reads the pairs' dimensions through the store and intersects them,
+   Delete removes through the pointers; the dimensions store is evicted (+ completion of its saves) or flushed and
+   reopened anywhere.
+   C02_refines_dimensions_partial: every selector lookup returns exactly what the plain index of Model/Index.v returns
+   on the history without the maintenance steps — under the side condition that every dimension round-trips through
+   Bytes/FromBytes whenever the store is evicted or flushed (dims_rt_at_maint; C02_dimensions_roundtrip: true when all
+   keys are shorter than 2^64 bytes).
+   C02_cached_index_is_table_filter: composed with keys' bridge (C07 index_lookup_is_filter): after any storage history
+   of admitted names, with maintenance of the dimensions store anywhere, the lookup for a selector returns the keys of
+   exactly the entries of Storage.v's series table the selector matches, in table order.  This is what the cached
+   storage twins (C02_refines_partial, _segments_partial, _all_partial) take as given when they keep the list of live
+   series ids as an exact index.
+   PARTIAL — the cached index and the cached storage twins are two transition systems related by this theorem, not one;
+   the labels store (plain Badger keys, no cache in the code) is carried along unchanged. *)
+From Pyro Require Import Model.Index Model.IndexCached Proofs.IndexProofs Proofs.IndexCachedProofs Proofs.C07StorageBridge.
+
+Theorem C02_refines_dimensions_partial : forall h,
+  dims_rt_at_maint h ix_empty -> snd (cx_run h cx_empty) = snd (px_run h ix_empty).
+Proof. exact cached_index_refines. Qed.
+Print Assumptions C02_refines_dimensions_partial.
+
+Theorem C02_dimensions_roundtrip : forall ist, (forall n, keys_small (dm_get n (ix_dims ist))) -> dims_rt ist.
+Proof. exact dims_rt_small. Qed.
+Print Assumptions C02_dimensions_roundtrip.
+
+Theorem C02_cached_index_is_table_filter : forall rthr ops Q h,
+  Forall op_parsed ops -> IndexProofs.key_ok Q ->
+  xops h = all_iops rthr ops st_init ->
+  dims_rt_at_maint (h ++ [XSel Q]) ix_empty ->
+  last (snd (cx_run (h ++ [XSel Q]) cx_empty)) None =
+  Some (map (fun ks => sid_key (fst ks))
+            (filter (fun ks => sel_matches (sid_of Q) (fst ks)) (st_segs (fst (st_run rthr ops st_init))))).
+Proof. exact cached_index_is_table_filter. Qed.
+Print Assumptions C02_cached_index_is_table_filter.
+
+Example C02_refines_dimensions_nonvacuous :
+  dims_rt_at_maint exx_hist ix_empty /\
+  c_lfu (cx_dims (fst (cx_run (firstn 4 exx_hist) cx_empty))) = [] /\
+  snd (cx_run exx_hist cx_empty) = [Some [normalized exx_K1; normalized exx_K2]; Some [normalized exx_K2]].
+Proof. exact cached_index_refines_nonvacuous. Qed.
